@@ -150,6 +150,25 @@ def run(tier, seed, rng):
                                     case=case, model='proj_ok_b = true', impl='rejected', oracle_rejects=False,
                                     correspondence=CORRESPONDENCES[0], theorems=THEOREMS,
                                     oracle='simdist found no stall under the explored schedules'))
+    # ---- the simulated transport against the real one (gloo, forked processes): same call logs, same gradients ----
+    from harness import realdist
+    nreal = nskip = 0
+    # (skipped when the simulated runs have already established a violation: a stalling change would only make the real processes time out)
+    for k in range(0 if failures else (6 if tier == 'quick' else 60)):
+        cfg = kfacgen.gen_cfg(rng, tier, worlds=(2, 2, 3, 4), allow_callable=False)
+        hist = [['train', cfg['accumulation_steps']] for _ in range(rng.randint(1, 3))]
+        d = realdist.compare(cfg, hist, seed=seed + k)
+        if d is None:
+            nskip += 1
+            continue
+        nreal += 1
+        cov.add({'kind': 'real-gloo', 'cfg': cfg, 'history': hist}, 1 < cfg['k'] < cfg['W'], sample_cap=1); cov.count('kind', 'real-gloo')
+        if d:
+            failures.append(Failure(what='simulated and real (gloo) transport disagree: ' + '; '.join(d[:2])[:400], case={'kind': 'real-gloo', 'cfg': cfg, 'history': hist, 'seed': seed + k},
+                                    impl=d[:6], model='harness/simdist.py', oracle_rejects=False, correspondence=CORRESPONDENCES[1], theorems=[],
+                                    oracle='torch.distributed with the gloo backend on forked processes'))
+    cov.extra['real_gloo_runs_compared'] = nreal
+    cov.extra['real_gloo_runs_skipped'] = nskip
     cov.extra['collectives_checked'] = tot
     cov.extra['collectives_compared_with_generator'] = gen_checked
     cov.extra['schedules_per_case'] = 3
